@@ -1723,9 +1723,9 @@ class ListProxy(list):
                 if self._parameter.names:
                     self._parameter.names = {
                         k: v for k, v in self._parameter.names.items()
-                        if v is object
+                        if v is not object
                     }
-            return
+            return object
         if self and not self._parameter.names:
             raise ValueError(
                 'Cannot pop an object from {clsname}.objects if '
